@@ -655,6 +655,23 @@ def _ref_flip_rotate(g, flip, rotate):
     return g
 
 
+_FILL = []
+
+
+def _fill_tile_literal():
+    """(attr, data) of skoolmacro.FILL_UDG as written in the source (the object itself may have been modified)."""
+    if not _FILL:
+        import ast as _ast
+        import inspect
+        from skoolkit import skoolmacro
+        for n in _ast.walk(_ast.parse(inspect.getsource(skoolmacro))):
+            if isinstance(n, _ast.Assign) and any(isinstance(t, _ast.Name) and t.id == 'FILL_UDG' for t in n.targets):
+                _FILL.extend(_ast.literal_eval(a) for a in n.value.args[:2])
+        if len(_FILL) != 2:
+            raise LookupError('FILL_UDG = Udg(<attr>, <data>) not found in skoolmacro.py')
+    return _FILL[0], _FILL[1]
+
+
 class _RefTile:
     def __init__(self, attr, data, mask=None):
         self.attr, self.data, self.mask = attr, data, mask
@@ -776,13 +793,25 @@ def macro_layer(seed, n):
                             mk = [snap[maddrs[i] + k * t_mstep] for k in range(8)]
                         tiles.append(_RefTile(sattr if s_attr else (attr if p_attr else 56), [(snap[a + k * t_step] + e_inc) % 256 for k in range(8)], mk))
                     specs.append(spec)
+                if width > 1 and rnd.random() < 0.3:
+                    # an incomplete last row: skoolkit completes it with its fill tile (a cross, attribute 66), which takes
+                    # part in this macro's flip/rotation like any other tile - and in no other macro's
+                    extra = rnd.randrange(1, width)
+                    a = rnd.randrange(24000, 50000)
+                    specs.append('%dx%d' % (a, extra) if extra > 1 else str(a))
+                    e_inc = inc if p_inc else 0
+                    for _ in range(extra):
+                        tiles.append(_RefTile(attr if p_attr else 56, [(snap[a + k * eff_step] + e_inc) % 256 for k in range(8)], None))
+                    fa, fd = _fill_tile_literal()
+                    for _ in range(width - extra):
+                        tiles.append(_RefTile(fa, list(fd), None))
                 text += ';'.join(specs) + ')'
                 arr = [tiles[i:i + width] for i in range(0, len(tiles), width)]
                 if rnd.random() < 0.3:
                     # attribute addresses override the attributes, row by row
                     ab = rnd.randrange(22528, 23000)
                     text += '[%d-%d]' % (ab, ab + total - 1)
-                    for i, tl in enumerate(tiles):
+                    for i, tl in enumerate(tiles[:total]):
                         tl.attr = snap[ab + i]
                 text += crop_txt
                 exp_grid = _ref_flip_rotate(_tile_grid(arr), flip, rotate)
@@ -811,6 +840,11 @@ def macro_layer(seed, n):
                 exp_grid = _tile_grid(arr)
                 exp_mask = 0
             frame = sna2img.MACROS[kind](snap, text)
+            first = _tile_grid(frame.udgs)
+            again = sna2img.MACROS[kind](snap, text)
+            if _tile_grid(again.udgs) != first or _tile_grid(frame.udgs) != first:
+                bad.append((kind, text, 'repeatable', 'expanding the same macro a second time in the same process gives different tiles'))
+                continue
             got = {'grid': _tile_grid(frame.udgs), 'scale': frame.scale, 'mask': frame.mask, 'crop': (frame._x, frame._y, frame._width, frame._height), 'tindex': frame.tindex, 'alpha': frame.alpha}
             exp = {'grid': exp_grid, 'scale': scale, 'mask': exp_mask, 'crop': exp_crop, 'tindex': tindex, 'alpha': alpha}
             if exp['mask'] == 0:
